@@ -233,14 +233,9 @@ def check_function_sorts(rep: Report, f: FunctionInfo, layout, one_body_layout, 
     return n_checked
 
 
-def run(idx: Index, rep: Report, tier: str):
-    rep.explain("C04, one structural clause: a spin-sort typestate over the unrestricted integral handling (frozen-core folding, active-space "
-                "selection, spin-orbital assembly), with the layout of the mixed two-electron block derived from the integral solver; plus the "
-                "alpha/beta electron split clone and the 1/2 factors of the interaction-operator assembly.")
-    rep.trust("CPython ast", "pyscf ao2mo.incore.general(eri, (C1, C2, C3, C4)) returns (C1 C2|C3 C4) in chemist order", "openfermion up_index/down_index = 2p / 2p+1")
-    rep.assume("integral values, frozen-core folding arithmetic, equality with full CI and orbital-rotation invariance are numerical facts and are not decided")
-    check_fci_sector(idx, rep)
-    check_frozen_partition(idx, rep)
+def check_uhf_spin_sorts(idx: Index, rep: Report):
+    """spin-sort typestate over the unrestricted frozen-core folding and Hamiltonian assembly (shared with C13: the energy contracted from spin-resolved density
+    matrices uses the same active-space integrals)"""
     layout = derive_layout(idx, rep)
     one = {0: (A, A), 1: (B, B)}
     n = 0
@@ -249,6 +244,18 @@ def run(idx: Index, rep: Report, tier: str):
     g = idx.function(f"{MOL}::SecondQuantizedMolecule._get_molecular_hamiltonian_uhf")
     n += check_function_sorts(rep, g, layout, one, {"two_body_integrals": "two", "one_body_integrals": "one"})
     rep.floor("spin-sort obligations", n, 35)
+    return f, g
+
+
+def run(idx: Index, rep: Report, tier: str):
+    rep.explain("C04, one structural clause: a spin-sort typestate over the unrestricted integral handling (frozen-core folding, active-space "
+                "selection, spin-orbital assembly), with the layout of the mixed two-electron block derived from the integral solver; plus the "
+                "alpha/beta electron split clone and the 1/2 factors of the interaction-operator assembly.")
+    rep.trust("CPython ast", "pyscf ao2mo.incore.general(eri, (C1, C2, C3, C4)) returns (C1 C2|C3 C4) in chemist order", "openfermion up_index/down_index = 2p / 2p+1")
+    rep.assume("integral values, frozen-core folding arithmetic, equality with full CI and orbital-rotation invariance are numerical facts and are not decided")
+    check_fci_sector(idx, rep)
+    check_frozen_partition(idx, rep)
+    f, g = check_uhf_spin_sorts(idx, rep)
     # returned containers keep the block order
     rets = [x for x in own_nodes(f.node) if isinstance(x, ast.Assign) and norm(x.targets[0]) == "two_body_integrals_new"]
     if not rets or not isinstance(rets[0].value, (ast.List, ast.Tuple)) or len(rets[0].value.elts) != 3:
